@@ -81,9 +81,9 @@ Proof.
   destruct s as [sc o e|sc o txt ilen|sc [o|]]; cbn [shown_seg seg_spec ins_plain]; intro H.
   - unfold rbytes, bytes_of. now rewrite flat_combine_map.
   - destruct H as [-> Hf]. destruct (rc_len txt =? 0).
-    + rewrite rbytes_blanks. unfold pad_attr. now destruct (o =? 0).
+    + rewrite rbytes_blanks. reflexivity.
     + now apply rbytes_const.
-  - rewrite rbytes_blanks. unfold pad_attr. now destruct (o =? 0).
+  - rewrite rbytes_blanks. reflexivity.
   - apply rbytes_blanks.
 Qed.
 
